@@ -112,10 +112,17 @@ pub struct Timer {
 	pub is_restart: bool,
 }
 
+/// The instant `grace` from now, or one in the far future when that is beyond what an `Instant` can hold.
+fn deadline(grace: Duration) -> Instant {
+	let now = Instant::now();
+	now.checked_add(grace)
+		.unwrap_or_else(|| now + Duration::from_secs(86400 * 365 * 30))
+}
+
 impl Timer {
 	pub fn stop(grace: Duration, done: Flag) -> Self {
 		Self {
-			until: Instant::now() + grace,
+			until: deadline(grace),
 			done,
 			is_restart: false,
 		}
@@ -123,7 +130,7 @@ impl Timer {
 
 	pub fn restart(grace: Duration, done: Flag) -> Self {
 		Self {
-			until: Instant::now() + grace,
+			until: deadline(grace),
 			done,
 			is_restart: true,
 		}
